@@ -105,6 +105,8 @@ def run_case(cas):
         cmd += ["--fitgrid", fit]
     if m.get("nocut") == "1":
         cmd += ["--nocut"]
+    if m.get("cm") == "1":
+        cmd += ["--comment", "verif C12 comment"]
     r = subprocess.run(cmd, stdout=subprocess.PIPE, stderr=subprocess.STDOUT, timeout=120)
     if r.returncode != 0 or not os.path.exists("out.tab") or not os.path.exists("der.tab"):
         fail(K + "error", "csg_resample rc=%s: %s" % (r.returncode, r.stdout.decode(errors="replace")[-300:].replace("\n", " | ")))
@@ -242,6 +244,91 @@ def all_cases(thorough):
                     for bc in (("natural", "periodic") if ty == "cubic" and not extra else ("natural",)):
                         for nocut in ("0", "1"):
                             C.append("ty=%s;bc=%s;x=%s;y=%s;fl=%s;grid=%s;fit=%s;nocut=%s%s" % (ty, bc, x_s, ",".join(H(v) for v in yv), "i" * nn, o, fg, nocut, ";" + extra if extra else ""))
+    if not thorough:
+        return C
+    # ------------------------------------------------------------ THOROUGH ONLY (appended; the runs above are unchanged)
+    def interp_case(ty, bc, g, yv, fl, o, extra=""):
+        return "ty=%s;bc=%s;x=%s;y=%s;fl=%s;grid=%s%s" % (ty, bc, ",".join(H(v) for v in g), ",".join(H(v) for v in yv), fl, o, ";" + extra if extra else "")
+
+    def outs_of(name, g, h):
+        mn, mx = g[0], g[-1]
+        fine = {"G4": 0.025, "G6": 0.025, "G8": 0.0125}.get(name, 0.125)
+        o = []
+        if h:
+            o.append("%r:%r:%r" % (mn, h, mx))
+        o.append("%r:%r:%r" % (mn, fine, mx))
+        o.append("%r:%r:%r" % (mn, (h or 0.5) * 2, mx))
+        o.append("%r:%r:%r" % (mn + 2 * fine, fine * 4, mx - 2 * fine))
+        o.append("%r:%r:%r" % (mn + fine, 3 * fine, mx))
+        return o
+    new_grids = [
+        ("G7", [0.0, 0.25, 1.0, 2.5, 5.5, 5.75, 6.5, 8.0], None),     # spacings from {0.25,0.75,1.5,3}
+        ("G8", [-0.5 + 0.05 * k for k in range(21)], 0.05),            # 21 points, decimal step
+        ("G10", [float(k) for k in range(12)], 1.0),                   # 12 points, step 1
+    ]
+    pats2 = [[3, -2, 0.5, 0, -2, 3], [-1000, 2000, 0, 1000, 2000, -1000], [-0.001, 0.002, 0, 0.001, 0.002, -0.001]]
+    pats2 = [(p * 17)[:101] for p in pats2]
+    for name, g, h in new_grids:       # everything the base enumeration does, on three more grids
+        n = len(g)
+        outs = outs_of(name, g, h)
+        ords = [([1.0 + 0.5 * v for v in g], "line=1.0,0.5")] + [([float(v) for v in p[:n]], "") for p in pats]
+        per = [float(v) for v in pats[0][:n]]
+        per[-1] = per[0]
+        for ty in ("akima", "cubic", "linear"):
+            for o in outs:
+                for (yv, extra) in ords:
+                    C.append(interp_case(ty, "natural", g, yv, ("iou" * n)[:n], o, extra))
+                C.append(interp_case(ty, "periodic", g, per, ("uoi" * n)[:n], o))
+    for name, g, h in grids + new_grids:
+        if name == "G6":
+            continue
+        n = len(g)
+        outs = outs_of(name, g, h)
+        base_y = [float(v) for v in pats[0][:n]]
+        for ty in ("akima", "cubic", "linear"):
+            # all 27 flag patterns on every output grid (the base enumeration has the first three output grids of G1..G5)
+            for oi, o in enumerate(outs):
+                if name in ("G1", "G2", "G3", "G4", "G5") and oi < 3:
+                    continue
+                for a in "iou":
+                    for b in "iou":
+                        for c in "iou":
+                            C.append(interp_case(ty, "natural", g, base_y, (a + b + c + "i" * n)[:n], o))
+            # larger / badly scaled ordinates, two more periodic data sets, --comment
+            for o in outs:
+                for p in pats2:
+                    C.append(interp_case(ty, "natural", g, [float(v) for v in p[:n]], ("oui" * n)[:n], o))
+                for p in pats[1:]:
+                    yp = [float(v) for v in p[:n]]
+                    yp[-1] = yp[0]
+                    C.append(interp_case(ty, "periodic", g, yp, ("iuo" * n)[:n], o))
+            C.append(interp_case(ty, "natural", g, base_y, ("iou" * n)[:n], outs[1], "cm=1"))
+    # all 81 flag patterns over {i,o,u}^4 on G1 (default type), same and finer output grid
+    g1 = grids[0][1]
+    for o in outs_of("G1", g1, 0.5)[:2]:
+        for a in "iou":
+            for b in "iou":
+                for c in "iou":
+                    for d in "iou":
+                        C.append(interp_case("akima", "natural", g1, [float(v) for v in pats[1][:5]], a + b + c + d + "i", o))
+    # more fit problems: 5- and 11-knot fit grids, decimal steps, more data sets, periodic cubic fits
+    fits2 = [("0:0.25:1", 0.0, 1.0, 0.0625, 0.5), ("0:2:8", 0.0, 8.0, 0.5, 4.0), ("0:0.1:1", 0.0, 1.0, 0.025, 0.5),
+             ("0:0.5:2", 0.0, 2.0, 0.0625, 1.5), ("0:1:3", 0.0, 3.0, 0.125, 1.0)]
+    for (fg, lo, hi, st, kink) in fits2:
+        nn = int(round((hi - lo) / st)) + 1
+        xs = [lo + k * st for k in range(nn)]
+        datas = [([1.0 + 0.5 * v for v in xs], "line=1.0,0.5", ("cubic", "linear")),
+                 ([-2.0 + 3.0 * v for v in xs], "line=-2.0,3.0", ("cubic", "linear")),
+                 ([2.0 * abs(v - kink) for v in xs], "hat=%r,2.0" % kink, ("linear",)),
+                 ([v * v - 1.0 for v in xs], "", ("cubic", "linear")),
+                 ([[0.0, 1.0, -1.0, 2.0][(3 * k) % 4] for k in range(nn)], "", ("cubic", "linear")),
+                 ([[0.0, 1.0, -1.0, 2.0][(k + k // 3) % 4] for k in range(nn)], "", ("cubic", "linear"))]
+        for (yv, extra, types) in datas:
+            for ty in types:
+                for o in ("%r:%r:%r" % (lo, st / 2, hi), "%r:%r:%r" % (lo, st, hi), "%r:%r:%r" % (lo + st, 2 * st, hi - st)):
+                    for bc in (("natural", "periodic") if ty == "cubic" and not extra else ("natural",)):
+                        for nocut in ("0", "1"):
+                            C.append("ty=%s;bc=%s;x=%s;y=%s;fl=%s;grid=%s;fit=%s;nocut=%s%s" % (ty, bc, ",".join(H(v) for v in xs), ",".join(H(v) for v in yv), "i" * nn, o, fg, nocut, ";" + extra if extra else ""))
     return C
 
 
@@ -262,6 +349,10 @@ def main():
               "one periodic vector) x type akima/cubic/linear x boundaries natural/periodic x output grid {same, finer, coarser, offset, range not a multiple of the step}, "
               "all 27 flag patterns over {i,o,u}^3 on the first three points; fits on 3 fit grids x {line, hat, parabola, alphabet pattern} data x 3 output grids x "
               "cut/--nocut; --derivative always written. distinct_nontrivial = distinct (type, boundary, first output rows, flags)")
+    if a.tier == "thorough":
+        R.rule += (" || THOROUGH additionally: input grids with spacings {0.25,0.75,1.5,3} (8 points), 21 points step 0.05, 12 points step 1; all 27 flag patterns on "
+                   "every output grid of every input grid, all 81 patterns over {i,o,u}^4 on G1; ordinates {-2,0,0.5,3}, x1000 and x0.001; 3 periodic data sets; --comment; "
+                   "5 more fit problems (5/11-knot, decimal fit grids, denser data) x 6 data sets")
     C = all_cases(a.tier == "thorough")
     R.count("cases_in_all_shards", len(C) if a.shard == 0 else 0)
     nsamp = 0
